@@ -59,6 +59,11 @@ func (m *vhModel) rebase(newBase uint64, applied []vhTx) (inval []vhTx, wantErr 
 	return inval, nil
 }
 
+// vhHeldRead: a list a reader obtained from Buffered, and what it contained at that time.
+type vhHeldRead struct{ got, want []vhTx }
+
+var vhHeld []vhHeldRead
+
 func vhOps() int {
 	if verifrt.Thorough() {
 		return 3
@@ -92,6 +97,8 @@ func vhStep(ctx context.Context, b *Buffer[uint64, vhTx], m *vhModel, canAdd boo
 		out := b.Buffered(ctx, nil)
 		verifrt.Reach("api-buffered")
 		verifrt.Assert(vhSameList(out, m.pend), "S:buffered-is-model-pending-list")
+		// the reader keeps what it was given; later calls must not change it under the reader
+		vhHeld = append(vhHeld, vhHeldRead{got: out, want: append([]vhTx(nil), m.pend...)})
 	case 1: // Rebase
 		newBase := verifrt.U64("newbase")
 		k := len(m.pend)
@@ -127,6 +134,7 @@ func vhStep(ctx context.Context, b *Buffer[uint64, vhTx], m *vhModel, canAdd boo
 // pending list is read back and must be the model's list, which applies in
 // order on the model's base by construction of the model (re-checked here).
 func VH_C19_BufferSeq() {
+	vhHeld = nil
 	ctx, cancel := context.WithCancel(vhCtx())
 	vhWrongCtx = 0
 	vhNoFatal = false
@@ -171,6 +179,9 @@ func VH_C19_BufferSeq() {
 		err := b.AddTx(ctx, vhTx{ID: id})
 		verifrt.Assert((err == nil) == verifrt.UFBool("valid", s, id), "S:next-tx-judged-on-state-after-pending")
 		verifrt.Observe("api-final", uint64(len(out)), s)
+	}
+	for _, h := range vhHeld {
+		verifrt.Assert(vhSameList(h.got, h.want), "S:list-handed-to-a-reader-never-changes-afterwards")
 	}
 	verifrt.Assert(vhWrongCtx == 0, "S:callbacks-get-a-context-derived-from-New")
 
